@@ -151,4 +151,42 @@ CHECKS = {
         "note": "node_color's degree rule is transcribed in the checker and cross-checked against the 16 asserting operators.",
         "technique": "decision-table extraction by enum-domain evaluation of MIR + operator-table consistency (syn)",
     },
+    "C28": {
+        "text": "Partial, static: the three mechanisms the property names. (1) Type gates: the proof-marker tables (ValidCommutativityFor, ValidIdempotenceFor, the four ValidMut*For tables incl. "
+                "`F: Fn` on their WAS_MUT=false impls) are evaluated from the impl headers over their finite domains; every ground instantiation admitted by the where-clauses of every "
+                "HydroNode-constructing API function (a finite-domain trait solver built from the crate's own impl table) must satisfy: aggregations over unordered/duplicated inputs carry "
+                "proofs, public casts without a NonDet guard strengthen nothing (order, retries, boundedness), public builders of Batch/ObserveNonDet/MergeOrdered take a NonDet guard. "
+                "(2) emit_core (MIR guard analysis): 'static state lifetimes only on the true edge of is_top_level(), 'tick never on it. (3) fold_no_replay/reduce_no_replay selected under "
+                "is_top_level() && is_bounded(), join's multiset_delta() under is_top_level(). Determinism of the composed program over tick partitions is NOT decided. One genuine defect "
+                "found by rule (1) (weaken_boundedness accepted Unbounded -> Bounded) was repaired by a fix: commit.",
+        "note": "Node typing rules are stated from the documented semantics of the IR nodes; library-internal fabricated guards are reviewed under C32.",
+        "technique": "finite-domain evaluation of the type-level API (impl-table trait solver over marker types) + branch-guard dominance analysis on rustc MIR",
+    },
+    "C29": {
+        "text": "Partial, static: the ordering/retry guarantees are a type-level encoding; decided: the encoding is sound w.r.t. the IR the API builds. Marker tables (IsOrdered, IsExactlyOnce, "
+                "IsBounded, MinOrder, MinRetries, WeakerOrderingThan, WeakerRetryThan, Boundedness::PreserveOrderIfBounded) are evaluated from impl headers/associated types and compared with "
+                "their documented meaning; for each of the ~180 (function, HydroNode variant) construction sites of hydro_lang::live_collections every admitted ground instantiation (~1600) "
+                "satisfies the node's typing rule (element-wise nodes create neither order nor exactly-once; Enumerate/Scan need TotalOrder+ExactlyOnce; future resolution yields NoOrder; "
+                "Chain/Join/JoinHalf meet rules incl. the `B2::BOUNDED` const-dependent branch). Run-time emission order of DFIR operators and per-key independence are NOT decided.",
+        "note": "Keyed joins are only constrained on retries (their per-key order argument is semantic).",
+        "technique": "finite-domain evaluation of the type-level API (impl-table trait solver, associated-type normalisation, const-dependent path pruning on MIR)",
+    },
+    "C32": {
+        "text": "Partial, static: library-internal order/retry/cardinality assumptions are enumerable, private and reviewed. The re-typing helpers (assume_*_trusted, cast_at_most_one_*, "
+                "assert_has_consistency_of_trusted) are not pub and ObserveNonDet{trusted:true} is built only in them; each of their ~40 call sites is evaluated under all instantiations the "
+                "caller's where-clauses admit: sites that never strengthen a guarantee are justified by types alone, every other site must be a reviewed table entry performing at most the "
+                "reviewed strengthenings (so dropping `O: IsOrdered` from first(), or adding a new assumption, is reported); every NonDet guard fabricated by library code for a public "
+                "nondeterministic API must be in the reviewed (function, callee) set. Reasons are the repository's own nondet! texts. That each justification is true on all inputs is NOT decided.",
+        "note": "hydro_std's fabricated guards (11 sites) are outside the property's anchors and only counted.",
+        "technique": "who-may-call + per-call-site finite-domain type evaluation against a reviewed instance table (rustc MIR + impl facts)",
+    },
+    "C33": {
+        "text": "Partial, static: bound-kind tables and bound typing. The associated-type tables of KeyedSingletonBound/SingletonBound (EraseMonotonic, KeyedStreamTo(Non)Monotone, WithBoundedValue, "
+                "ValueBound, UnderlyingBound, StreamToMonotone, IsKeyedMonotonic) and the ApplyMonotoneStream/ApplyMonotoneKeyedStream/ApplyOrderPreservingSingleton impls are evaluated and "
+                "compared with the promise sets the kinds document; for every HydroNode-constructing API function every admitted instantiation's output bound promises nothing its input and "
+                "proofs do not justify (element-wise nodes add no promise; folds promise monotone values only with a monotonicity proof or bounded input). That emitted values obey the "
+                "annotation is NOT decided.",
+        "note": "Promise sets: Unbounded {} < MonotonicKeys {keys grow} < MonotonicValue {+values monotone} < BoundedValue {+value immutable} < Bounded {+finite}.",
+        "technique": "decision-table extraction from impl facts + finite-domain evaluation of the type-level API",
+    },
 }
